@@ -18,7 +18,7 @@ THEOREMS = {"C01.v": json.load(open(os.path.join(os.path.dirname(__file__), "_th
             # links between the machines and the sequential models (solo runs)
             "Links.v": ["Link_M1_solo_is_sequential", "Link_M2_solo_is_sequential", "Link_UpperInv_SInv"],
             # the whole allocator under every interleaving (machine M2)
-            "Conc.v": ['Conc_upper_safe', 'Conc_upper_safe_with_changes', 'Conc_from_new']}
+            "Conc.v": ['Conc_upper_safe', 'Conc_upper_safe_with_changes', 'Conc_from_new', 'Conc_held_with_any_tree_change', 'Conc_m1_inv_with_any_tree_change', 'Conc_held_online_race_instance']}
 
 
 def jobs(ctx, rel):
